@@ -913,6 +913,39 @@ func parseFamily(env *Env) error {
 			}
 		}
 	}
+	// every byte above 0x7F, alone and as the UTF-8 character of that code point, in place of the last letter of the
+	// first file of every format (a residue, or the end of a name): tables indexed by a character or its upper-case
+	// form, and readers that decode runes, meet every one of them
+	for _, f := range order {
+		if f == "partition" || len(files[f]) == 0 {
+			continue
+		}
+		b := []byte(files[f][0])
+		at := -1
+		for i, ch := range b {
+			if (ch >= 'A' && ch <= 'Z') || (ch >= 'a' && ch <= 'z') {
+				at = i
+			}
+		}
+		if at < 0 {
+			continue
+		}
+		for cp := 0x80; cp <= 0xFF; cp++ {
+			for vi, repl := range [][]byte{{byte(cp)}, []byte(string(rune(cp)))} {
+				// (the two-byte character takes the place of two bytes: the rows keep their common length in bytes)
+				from := at
+				if vi == 1 && at > 0 && b[at-1] != '\n' && b[at-1] != ' ' {
+					from = at - 1
+				}
+				m := append(append(append([]byte{}, b[:from]...), repl...), b[at+1:]...)
+				c := parseCase{Bytes: s2i(string(m)), Pol: cp % 3, Alpha: []int{align.BOTH, align.NUCLEOTIDS, align.AMINOACIDS}[cp%3], Plen: 12, Fmt: f}
+				if f == "phylipstrict" {
+					c.Fmt, c.Strict = "phylip", true
+				}
+				run(f+"-hi", c)
+			}
+		}
+	}
 	return nil
 }
 
